@@ -72,7 +72,7 @@ func (_this *Decoder) Decode(reader io.Reader, eventReceiver events.DataEventRec
 
 	_this.markBytesRead(buf.Len())
 
-	return ParseDocument(buf.String(), eventReceiver)
+	return parseDocument(buf.String(), eventReceiver, &_this.config.Rules)
 }
 
 func (_this *Decoder) DecodeDocument(document []byte, eventReceiver events.DataEventReceiver) (err error) {
@@ -91,7 +91,7 @@ func (_this *Decoder) DecodeDocument(document []byte, eventReceiver events.DataE
 
 	_this.markBytesRead(len(document))
 
-	return ParseDocument(string(document), eventReceiver)
+	return parseDocument(string(document), eventReceiver, &_this.config.Rules)
 }
 
 func (_this *Decoder) markBytesRead(byteCount int) {
